@@ -19,7 +19,7 @@ def tlc_cases(chk):
     d = vlib.scratch("c04")
     cfg = os.path.join(d, "c.cfg")
     with open(cfg, "w") as f:
-        f.write("SPECIFICATION Spec\nINVARIANTS\n AllWellFormed\n P1\n P2\n P3\n P4\n P5\n Emit\n")
+        f.write("SPECIFICATION Spec\nINVARIANTS\n AllWellFormed\n P1\n P2\n P3\n P4\n P5\n P6\n Emit\n")
     r = vlib.run_tlc("MC_AnchorPolicy.tla", cfg, timeout=2400, workers=16)
     if r.violation:
         raise vlib.CheckError("AnchorPolicy.tla violates %s:\n%s" % (r.violation, r.out[-3000:]))
@@ -244,8 +244,9 @@ def run(chk, tier, seed):
             if got != v["res"]:
                 chk.violation("%s-instead-of-%s:%s:%s" % (got, v["res"], c["p"], v["code"] if v["res"] == "FAIL" else f["code"]),
                               "%s verdict %s %s, AnchorPolicy.tla says %s %s (%s)" % (c["p"], got, f["code"], v["res"], v["code"], describe(c)), payload)
-            elif got == "FAIL" and not (f["code"] == v["code"] or (v["code"] == "INT" and f["code"].startswith("INT-"))):
-                chk.violation("code:%s-instead-of-%s:%s" % (f["code"], v["code"], c["p"]), "%s FAIL code %s, AnchorPolicy.tla says %s (%s)" % (c["p"], f["code"], v["code"], describe(c)), payload)
+            elif got == "FAIL" and not (f["code"] in c["codes"] or ("INT" in c["codes"] and f["code"].startswith("INT-"))):
+                # any code of a condition the environment really contradicts is admitted (the property does not fix the order of the rules)
+                chk.violation("code:%s-not-in-%s:%s" % (f["code"], "+".join(sorted(c["codes"])), c["p"]), "%s FAIL code %s; the environment contradicts only %s (%s)" % (c["p"], f["code"], sorted(c["codes"]), describe(c)), payload)
     except netsim.Died as ex:
         chk.violation("crash:verify", "libksi crashed/aborted during verification\n%s" % str(ex)[-2500:], dict(log=[x[:600] for x in s.log[-30:]]))
         s = None
